@@ -157,6 +157,19 @@ def oracle(seq, out) -> str | None:
                     ok = q in named or (k == "rmdir" and op[2] == 1 and q.startswith(op[1] + "/"))
                     if not ok:
                         return f"operation-changed-unnamed-path:{k}"
+        if k in ("rename", "replace") and res == f"code={SUCCESS[k]}":
+            # a successful move: onto itself nothing changes; otherwise the target holds what the source
+            # held and the source is gone (files)
+            from trace import parse_fs
+            before, after = parse_fs(prev), parse_fs(snap)
+            # rename_file(old, new) moves old -> new; replace_file(replaced, source) moves source -> replaced
+            a, b = (op[1], op[2]) if k == "rename" else (op[2], op[1])
+            if a == b:
+                if changed:
+                    return f"{k}-onto-itself-changed-tree"
+            elif isinstance(before.get(a), bytes):
+                if after.get(b, "missing") != before[a] or a in after:
+                    return f"{k}-did-not-move-the-content"
         if k == "write" and res == "ok" and op[2] == "-" and changed:
             # an empty write leaves every byte (and the length) of every file as it was
             return "empty-write-changed-tree"
